@@ -479,6 +479,14 @@ func (e *Engine) callFunction(caller *frame, fn *ssa.Function, args []Value, env
 		}
 	}
 	if fi.intrinsic != nil {
+		for _, a := range args {
+			if o, ok := a.(Opaque); ok {
+				if e.inInit > 0 {
+					return e.opaqueResults(fn.Signature, "intrinsic on opaque argument: "+o.Why)
+				}
+				e.unsupported("intrinsic " + fi.name + " on opaque argument: " + o.Why)
+			}
+		}
 		return fi.intrinsic(e, caller, fn, args)
 	}
 	if fn.Synthetic == "package initializer" && caller != nil {
